@@ -408,6 +408,9 @@ func (tr *fnTrans) enterBlock(b *ssa.BasicBlock) {
 	// assume invariants at the header
 	ev := tr.loopEval(li, tr.cur, nil)
 	for _, inv := range tr.autoInvariants(li, phis, nil, tr.cur) {
+		if i := strings.Index(inv, "|("); i >= 0 && strings.HasPrefix(inv, "frame:") {
+			inv = inv[i+1:]
+		}
 		tr.assume(inv)
 	}
 	if li.spec != nil {
@@ -452,7 +455,7 @@ func (tr *fnTrans) autoInvariants(li *loopInfo, phis []*ssa.Phi, ov map[ssa.Valu
 		for _, cn := range comps {
 			cur := tr.get(st, cn, tr.compSort[cn])
 			old := q(cn + "@0")
-			out = append(out, fmt.Sprintf("(forall ((qv!x Ref)) (! (=> (< (allocT qv!x) %s) (= (select %s qv!x) (select %s qv!x))) :pattern ((select %s qv!x))))", tr.clock(tr.entry), cur, old, cur))
+			out = append(out, "frame:"+cn+"|"+fmt.Sprintf("(forall ((qv!x Ref)) (! (=> (< (allocT qv!x) %s) (= (select %s qv!x) (select %s qv!x))) :pattern ((select %s qv!x))))", tr.clock(tr.entry), cur, old, cur))
 		}
 	}
 	for _, ph := range phis {
@@ -488,8 +491,14 @@ func (tr *fnTrans) checkInvariants(li *loopInfo, guard string, st *State, ov map
 			phis = append(phis, ph)
 		}
 	}
-	for i, inv := range tr.autoInvariants(li, phis, ov, st) {
-		tr.obligeG(guard, "inv", fmt.Sprintf("loop%d.inv.auto%d.%s", li.ord, i, what), inv, token.NoPos, nil, "range index bounds")
+	nIdx := 0
+	for _, inv := range tr.autoInvariants(li, phis, ov, st) {
+		if i := strings.Index(inv, "|("); i >= 0 && strings.HasPrefix(inv, "frame:") {
+			tr.obligeG(guard, "frame", fmt.Sprintf("loop%d.autoframe.%s.%s", li.ord, inv[len("frame:"):i], what), inv[i+1:], token.NoPos, nil, "loop keeps unlisted heap component on pre-existing objects")
+			continue
+		}
+		tr.obligeG(guard, "inv", fmt.Sprintf("loop%d.autoidx%d.%s", li.ord, nIdx, what), inv, token.NoPos, nil, "range index bounds")
+		nIdx++
 	}
 	if li.spec == nil {
 		return
